@@ -43,6 +43,12 @@ CONSTANTS Tree,        \* "std" | "deep" | "par" (three leaves running in parall
           CallMode,    \* "subsets": any increasing list of variables (above) | "final": the one call that passes every option value
                        \* no later statement derives from (what user code does with the options it has built)
           SubKind,     \* what the nested graphs are built with: "graph" | "chain" | "workflow" (the harness builds them so)
+          MaxBundle,   \* a "new" statement builds an option from 1..MaxBundle values in one WithLambdaOption call
+          Modes,       \* call paradigms of a case, subset of {"invoke", "stream"}
+          AllowKeyed,  \* TRUE: one node (leaf or nested graph, not the first of its graph) may be added with WithInputKey (its predecessor with
+                       \* the matching WithOutputKey)
+          FirstOnly,   \* seeded variant of extractOption: a designated component option reaches its node with opt.options[0] only
+          KeyedStreamDrops, \* seeded variant of inputKeyedComposableRunnable: the stream-path wrapper calls the inner transform without opts
           AllowIntr,   \* TRUE: the case is "interrupted run + resuming call": the graph is compiled with a checkpoint store and ONE interrupt mark
                        \* (before / after a leaf, possibly inside a nested graph); call 1 runs up to the mark, call 2 (same checkpoint id,
                        \* its own options) resumes.  Needs NCalls = 2 and a path universe without invalid paths (PU = 3).
@@ -86,14 +92,18 @@ PathLists == UNION {{s \in [1..k -> PathU] : \A i, j \in 1..k : i # j => s[i] # 
 VARIABLES phase, prog, vals, heap, na, calls, S, intr
 vars == <<phase, prog, vals, heap, na, calls, S, intr>>
 \* intr = [u, after]: interrupt before (after = FALSE) / after (TRUE) leaf u; u = "" none
-NoIntr == [u |-> "", after |-> FALSE]
+NoIntr == [u |-> "", after |-> FALSE, mode |-> "invoke", keyed |-> ""]
+Keyable == {UnitSeq[i].u : i \in {j \in 1..Len(UnitSeq) : UnitSeq[j].parent # "" /\ Tree # "par"
+                                                          /\ \E k \in 1..(j - 1) : UnitSeq[k].parent = UnitSeq[j].parent}}
 LeafSeq == SelectSeq(UnitSeq, LAMBDA u : ~u.graph)                 \* = execution order (every level is a chain)
 LeafIdx(id) == CHOOSE i \in 1..Len(LeafSeq) : LeafSeq[i].u = id
 LastOfItsGraph(id) == ~\E j \in 1..Len(UnitSeq) : UnitSeq[j].parent = (CHOOSE x \in UnitSet : x.u = id).parent
                                                     /\ j > (CHOOSE i \in 1..Len(UnitSeq) : UnitSeq[i].u = id)
-IntrChoices == IF ~AllowIntr THEN {NoIntr}
-               ELSE {[u |-> LeafSeq[i].u, after |-> FALSE] : i \in 1..Len(LeafSeq)}
-                    \cup {[u |-> LeafSeq[i].u, after |-> TRUE] : i \in {j \in 1..Len(LeafSeq) : ~LastOfItsGraph(LeafSeq[j].u)}}
+IntrMarks == IF ~AllowIntr THEN {[u |-> "", after |-> FALSE]}
+             ELSE {[u |-> LeafSeq[i].u, after |-> FALSE] : i \in 1..Len(LeafSeq)}
+                  \cup {[u |-> LeafSeq[i].u, after |-> TRUE] : i \in {j \in 1..Len(LeafSeq) : ~LastOfItsGraph(LeafSeq[j].u)}}
+IntrChoices == {[u |-> m.u, after |-> m.after, mode |-> md, keyed |-> k] :
+                  m \in IntrMarks, md \in Modes, k \in {""} \cup (IF AllowKeyed THEN Keyable ELSE {})}
 \* first leaf that executes in the resuming call
 FirstRes == IF intr.after THEN LeafIdx(intr.u) + 1 ELSE LeafIdx(intr.u)
 ExecIn(k, id) == intr.u = "" \/ (IF k = 1 THEN LeafIdx(id) < FirstRes ELSE LeafIdx(id) >= FirstRes)
@@ -106,9 +116,10 @@ Init == phase = "prog" /\ prog = <<>> /\ vals = <<>> /\ heap = EmptyHeap /\ na =
 NNew == Cardinality({i \in 1..Len(prog) : prog[i].op = "new"})
 AddNew(t) ==
   /\ phase = "prog" /\ Len(prog) < MaxStmts /\ NNew < MaxNew
-  /\ LET id == "o" \o ToString(NNew + 1) IN
-       /\ prog' = Append(prog, [op |-> "new", typ |-> t, id |-> id])
-       /\ vals' = Append(vals, [typ |-> t, id |-> id, s |-> NilSlice])        \* make([]*NodePath, 0) / nil
+  /\ \E n \in 1..(IF t = "cb" THEN 1 ELSE MaxBundle) :
+     LET id == "o" \o ToString(NNew + 1) IN
+       /\ prog' = Append(prog, [op |-> "new", typ |-> t, id |-> id, n |-> n])
+       /\ vals' = Append(vals, [typ |-> t, id |-> id, n |-> n, s |-> NilSlice])        \* make([]*NodePath, 0) / nil
   /\ UNCHANGED <<phase, heap, na, calls, S, intr>>
 AddDes(from, ps) ==
   /\ phase = "prog" /\ Len(prog) < MaxStmts /\ from \in 1..Len(prog) /\ from > Len(prog) - Window
@@ -124,7 +135,9 @@ CallLists == IF CallMode = "final" THEN {FinalVars} ELSE UNION {IncSeqs(Len(prog
 
 \* ------------------------------------------------------------------ routing, as coded
 \* an option as extractOption sees it at some graph level: [typ, id, paths]   (paths relative to that level)
-GoOpt(i) == [typ |-> vals[i].typ, id |-> vals[i].id, paths |-> View(heap, vals[i].s)]
+GoOpt(i) == [typ |-> vals[i].typ, id |-> vals[i].id, n |-> vals[i].n, paths |-> View(heap, vals[i].s)]
+Bundle(o) == [j \in 1..o.n |-> Val(o.id, j)]                     \* opt.options
+AddAll(m, k, xs) == [m EXCEPT ![k] = @ \o xs]
 KidByKey(g, k) == CHOOSE u \in Range(Kids(g)) : KeyOf(u) = k
 HasKid(g, k) == \E u \in Range(Kids(g)) : KeyOf(u) = k
 Add(m, k, x) == [m EXCEPT ![k] = Append(@, x)]
@@ -141,7 +154,8 @@ ExPaths(g, o, ps, acc) ==
         IF o.typ = "cb" THEN ExPaths(g, o, Tail(ps), acc)                                     \* len(opt.options) == 0: continue
         ELSE IF cur.graph THEN ExPaths(g, o, Tail(ps), [acc EXCEPT !.m = Add(@, cur.u, [o EXCEPT !.paths = <<>>])])
         ELSE IF cur.ot # o.typ THEN [acc EXCEPT !.err = TRUE]                                 \* option type differs
-        ELSE ExPaths(g, o, Tail(ps), [acc EXCEPT !.m = Add(@, cur.u, o.id)])
+        \* optMap[key] = append(optMap[key], opt.options...)     (FirstOnly: opt.options[0])
+        ELSE ExPaths(g, o, Tail(ps), [acc EXCEPT !.m = AddAll(@, cur.u, IF FirstOnly THEN <<o.id>> ELSE Bundle(o))])
       ELSE IF ~cur.graph THEN [acc EXCEPT !.err = TRUE]                                       \* sub path of a component
       ELSE ExPaths(g, o, Tail(ps), [acc EXCEPT !.m = Add(@, cur.u, [o EXCEPT !.paths = <<Tail(p)>>])])
 \* the undesignated branch: by type, whole option to sub-graphs
@@ -149,7 +163,7 @@ RECURSIVE ExCommon(_, _, _, _)
 ExCommon(g, o, kids, m) ==
   IF kids = <<>> THEN m
   ELSE LET k == Head(kids) IN
-       ExCommon(g, o, Tail(kids), IF k.graph /\ (~SubByComponent \/ k.gk = "graph") THEN Add(m, k.u, o) ELSE IF k.ot = o.typ THEN Add(m, k.u, o.id) ELSE m)
+       ExCommon(g, o, Tail(kids), IF k.graph /\ (~SubByComponent \/ k.gk = "graph") THEN Add(m, k.u, o) ELSE IF k.ot = o.typ THEN AddAll(m, k.u, Bundle(o)) ELSE m)
 RECURSIVE Extract(_, _, _)
 Extract(g, os, acc) ==
   IF os = <<>> \/ acc.err THEN acc
@@ -196,7 +210,10 @@ RunKids(k, g, os, inh, kids, ex) ==
            cbs == IF Tree = "par" /\ g = "top" THEN ParCbs(os, Kids(g))[u.u] ELSE inh \cup NodeCbs(os, KeyOf(u))
            \* runner.restoreTasks: `if opt, ok := optMap[key]; ok { newTask.option = opt }` -- the rebuilt task carries the options the
            \* RESUMING call addressed to it (as every freshly created task does); RestoreDropsOpts: it carries none
-           mu == IF RestoreDropsOpts /\ Restored(k, u) THEN <<>> ELSE ex.m[u.u]
+           \* a node added with WithInputKey runs behind inputKeyedComposableRunnable, whose Invoke and stream wrappers both pass opts...
+           \* (KeyedStreamDrops: the stream wrapper does not)
+           mu == IF RestoreDropsOpts /\ Restored(k, u) THEN <<>>
+                 ELSE IF KeyedStreamDrops /\ intr.keyed = u.u /\ intr.mode = "stream" THEN <<>> ELSE ex.m[u.u]
        IN IF u.graph
           THEN LET r == RunG(k, u.u, mu, cbs) IN
                IF r.err THEN r
@@ -216,7 +233,8 @@ RunCall(k) ==
   IN mine \o <<[ev |-> "ret", call |-> k, err |-> IF intr.u = "" THEN r.err ELSE k = 1]>>
 \* a sub-run that fails still let the nodes in front of it run: RunKids returns the error of the failing graph node only,
 \* the lines of the leaves before it are kept by the caller
-CaseLine == [ev |-> "case", id |-> "m", tree |-> Tree, units |-> UnitSeq, prog |-> prog, calls |-> calls, intr |-> intr.u, intrafter |-> intr.after]
+CaseLine == [ev |-> "case", id |-> "m", tree |-> Tree, units |-> UnitSeq, prog |-> prog, calls |-> calls, intr |-> intr.u, intrafter |-> intr.after,
+             mode |-> intr.mode, keyed |-> intr.keyed]
 
 Close ==
   /\ phase = "prog" /\ Len(prog) > 0 /\ Len(prog) >= MinStmts
